@@ -342,29 +342,41 @@ func RunShutdownCase(seed int64, o ShutdownOpts) *HistResult {
 	} else if len(saves) == 0 {
 		find("C11:no-final-save", "nothing was saved by Shutdown")
 	} else {
-		last := saves[len(saves)-1]
 		if len(saves) > savesAtR {
 			res.sit("C11", "save landed after shutdown returned")
 		}
-		if len(last.Jobs) != len(atR.Jobs) {
-			find("C11:store-differs-from-final-state", "the store holds %d jobs, the runner reports %d when Shutdown returned (saves: %d at return, %d in the end)", len(last.Jobs), len(atR.Jobs), savesAtR, len(saves))
-		}
-		for i := range atR.Jobs {
-			j := &atR.Jobs[i]
-			pj, ok := last.Jobs[j.ID]
-			if !ok {
-				find("C11:store-differs-from-final-state", "job %s is reported but missing in the store", j.ID[:8])
-				continue
+		// two instants: what the store held when Shutdown returned (the last save that had been completed by then - saves
+		// are serialized, so this is Shutdown's own final save or a later one of the same state; seed C11-m: the final save
+		// is dropped because another one "is queued anyway") and what it holds in the end
+		cmpStore := func(when string, last *core.SaveRecord) {
+			if len(last.Jobs) != len(atR.Jobs) {
+				find("C11:store-differs-from-final-state", "%s the store holds %d jobs, the runner reports %d when Shutdown returned (saves: %d at return, %d in the end)", when, len(last.Jobs), len(atR.Jobs), savesAtR, len(saves))
 			}
-			if pj.Completed != j.Completed || pj.Canceled != j.Canceled || (pj.End != nil) != (j.End != nil) || (pj.Start != nil) != (j.Start != nil) {
-				find("C11:store-differs-from-final-state", "job %s: store says completed=%v canceled=%v end=%v, the runner reported completed=%v canceled=%v end=%v when Shutdown returned (saves: %d at return, %d in the end)", j.ID[:8], pj.Completed, pj.Canceled, pj.End != nil, j.Completed, j.Canceled, j.End != nil, savesAtR, len(saves))
-				continue
-			}
-			for ti, t := range j.Tasks {
-				if ti < len(pj.Tasks) && pj.Tasks[ti].Status != t.Status {
-					find("C11:store-differs-from-final-state", "job %s task %s: store status %q, reported %q", j.ID[:8], t.Name, pj.Tasks[ti].Status, t.Status)
+			for i := range atR.Jobs {
+				j := &atR.Jobs[i]
+				pj, ok := last.Jobs[j.ID]
+				if !ok {
+					find("C11:store-differs-from-final-state", "%s job %s is reported but missing in the store", when, j.ID[:8])
+					continue
+				}
+				if pj.Completed != j.Completed || pj.Canceled != j.Canceled || (pj.End != nil) != (j.End != nil) || (pj.Start != nil) != (j.Start != nil) {
+					find("C11:store-differs-from-final-state", "%s job %s: store says completed=%v canceled=%v end=%v, the runner reported completed=%v canceled=%v end=%v when Shutdown returned (saves: %d at return, %d in the end)", when, j.ID[:8], pj.Completed, pj.Canceled, pj.End != nil, j.Completed, j.Canceled, j.End != nil, savesAtR, len(saves))
+					continue
+				}
+				for ti, t := range j.Tasks {
+					if ti < len(pj.Tasks) && pj.Tasks[ti].Status != t.Status {
+						find("C11:store-differs-from-final-state", "%s job %s task %s: store status %q, reported %q", when, j.ID[:8], t.Name, pj.Tasks[ti].Status, t.Status)
+					}
 				}
 			}
+		}
+		if savesAtR == 0 {
+			find("C11:no-final-save", "no save had been completed when Shutdown returned (%d in the end)", len(saves))
+		} else {
+			cmpStore("when Shutdown returned", saves[savesAtR-1])
+		}
+		if n := len(res.Findings); n == 0 || len(saves) > savesAtR {
+			cmpStore("in the end", saves[len(saves)-1])
 		}
 	}
 	// requests racing with the shutdown: accepted ones are terminal at R; none accepted after R
@@ -1145,5 +1157,124 @@ func RunPersistDuringShutdownCase(seed int64) *HistResult {
 	if !ok {
 		find("C11:change-not-persisted-within-interval", "%s happened while a graceful shutdown was waiting for another running job; 10 s later (persist interval 3 s, %d saves since) the store still does not hold it and Shutdown has not returned - a process killed now loses it", change, rec.SaveCount()-n0)
 	}
+	return res
+}
+
+// RunShutdownWithSavesInFlightCase (C11; seed C11-m): the store is slow. One save is inside the store (held there by the
+// harness), k further SaveToStore calls wait for their turn, the last running job ends, and a graceful Shutdown is issued.
+// "When shutdown returns the store holds exactly the final reported state": if Shutdown returns while the harness still
+// holds the first save inside the store, the store cannot hold the final state (nothing was written since) - Shutdown's
+// own final save must have waited for its turn. After the release the usual comparison is made at the instant of return.
+func RunShutdownWithSavesInFlightCase(seed int64) *HistResult {
+	res := &HistResult{Seed: seed, Situations: map[string]map[string]struct{}{}, Evaluations: map[string]int{}}
+	find := func(sig, format string, args ...any) {
+		res.Findings = append(res.Findings, Finding{Props: []string{"C11"}, Sig: sig, Detail: fmt.Sprintf(format, args...), Step: -1})
+	}
+	var hold atomic.Bool
+	entered := make(chan struct{}, 64)
+	release := make(chan struct{})
+	st := &core.RecStore{}
+	st.Fail = func(n int) error {
+		if hold.Load() {
+			entered <- struct{}{}
+			<-release
+		}
+		return nil
+	}
+	def := definition.PipelineDef{Concurrency: 2, SourcePath: "gen", Tasks: map[string]definition.TaskDef{"t": {Script: []string{"true"}}}}
+	sys, err := core.NewSys(&definition.PipelinesDef{Pipelines: map[string]definition.PipelineDef{"p": def}}, st, core.NewMemOutputStore())
+	if err != nil {
+		res.Inconclusive = err.Error()
+		return res
+	}
+	defer sys.Close()
+	defer DrainAll(sys)
+	released := false
+	rel := func() {
+		if !released {
+			released = true
+			hold.Store(false)
+			close(release)
+		}
+	}
+	defer rel()
+	queued := int(seed % 3)      // SaveToStore calls waiting behind the one in the store: 0, 1, 2
+	endBefore := (seed/3)%2 == 0 // the running job ends before / after Shutdown was called
+	job, cls := sys.Schedule(0, "p", nil, "u")
+	if cls != "ok" {
+		res.Inconclusive = "schedule: " + cls
+		return res
+	}
+	if _, err := sys.Quiesce(core.QuiesceOpts{Watchdog: 20 * time.Second}); err != nil {
+		res.Inconclusive = err.Error()
+		return res
+	}
+	hold.Store(true)
+	go sys.Save(1)
+	select {
+	case <-entered:
+	case <-time.After(20 * time.Second):
+		res.Inconclusive = "the save did not reach the store"
+		return res
+	}
+	hold.Store(false) // only the first save is held; those that follow pass through once it is released
+	for i := 0; i < queued; i++ {
+		go sys.Save(2 + i)
+	}
+	time.Sleep(20 * time.Millisecond) // (shaping: lets the further savers reach the point where they wait for their turn)
+	if endBefore {
+		sys.Release(job, "t", core.Outcome{Kind: core.OutOK})
+		for i := 0; i < 5000; i++ {
+			if j, ok := sys.ReadJob(job); ok && j.Completed {
+				break
+			}
+			time.Sleep(time.Millisecond)
+		}
+	}
+	sd := make(chan error, 1)
+	go func() { sd <- sys.Shutdown(5, context.Background(), "graceful, saves in flight") }()
+	if !endBefore {
+		for i := 0; i < 4000; i++ {
+			if _, cls := sys.Schedule(8, "no-such-pipeline-probe", nil, "probe"); cls == "shutting-down" {
+				break
+			}
+			time.Sleep(50 * time.Microsecond)
+		}
+		sys.Release(job, "t", core.Outcome{Kind: core.OutOK})
+	}
+	res.sit("C11", fmt.Sprintf("graceful shutdown with a save inside a slow store and %d more waiting (job ends before the call: %v)", queued, endBefore))
+	res.Evaluations["C11"]++
+	compare := func(when string) {
+		atR := sys.Snapshot(-1)
+		saves := st.Saves()
+		if len(saves) == 0 {
+			find("C11:store-differs-from-final-state", "%s: Shutdown has returned and the store has not completed a single save (the runner reports %d jobs)", when, len(atR.Jobs))
+			return
+		}
+		last := saves[len(saves)-1]
+		for i := range atR.Jobs {
+			j := &atR.Jobs[i]
+			pj, ok := last.Jobs[j.ID]
+			if !ok || pj.Completed != j.Completed || pj.Canceled != j.Canceled || (pj.End != nil) != (j.End != nil) {
+				find("C11:store-differs-from-final-state", "%s: job %s is reported completed=%v canceled=%v when Shutdown returned, the last snapshot the store completed (%d so far) has it as present=%v completed=%v canceled=%v", when, j.ID[:8], j.Completed, j.Canceled, len(saves), ok, pj.Completed, pj.Canceled)
+			}
+		}
+	}
+	select {
+	case <-sd:
+		// Shutdown returned although the first save is still inside the store
+		compare("a save is still held inside the slow store")
+		rel()
+	case <-time.After(1500 * time.Millisecond):
+		// (the expected course: Shutdown waits for the store) - let the store go on
+		rel()
+		select {
+		case <-sd:
+			compare("after the slow store had finished")
+		case <-time.After(30 * time.Second):
+			res.Inconclusive = "graceful shutdown did not return after the store was released"
+		}
+	}
+	res.Events = sys.Log.Len()
 	return res
 }
